@@ -54,7 +54,7 @@ def run(ctx, res):
     res.require_min("R-LIN", 15)
     # the inductive cursor invariant, laps included (channelinduct.py)
     from ..channelinduct import rule_induct
-    res.guard(rule_induct, prog, res)
+    res.guard(rule_induct, prog, res, with_mapped=True)
     res.require_min("R-INDUCT", 12)
     res.require_min("R-WRITE-GUARD", 1)
     res.require_min("R-ENCAPS", 5)
